@@ -103,9 +103,12 @@ FinalEval(r, s, c, t) ==
     /\ pc' = "classify"
     /\ UNCHANGED <<wlo, whi, xtol, lo, hi, slo, shi, atolSet>>
 
-Classify ==
+\* Besides the two flags the code also declares an error when T+ or T- left the tabulated ranges, when the root finder did
+\* not converge, and when a wall parameter sits on one of its bounds ("the solution is probably inaccurate"): clean = none
+\* of these (chosen by the environment in the design model, observed or inferred when a recorded run is validated).
+Classify(clean) ==
     /\ pc = "classify"
-    /\ res' = IF succT /\ succP
+    /\ res' = IF succT /\ succP /\ clean
               THEN [res EXCEPT !.kind = "VELOCITY", !.succ = TRUE, !.fromFlags = TRUE]
               ELSE [res EXCEPT !.kind = "ERROR", !.succ = FALSE, !.fromFlags = TRUE]
     /\ pc' = "done"
@@ -121,7 +124,7 @@ Init == /\ P \in [0..K -> {-1, 0, 1}]
 Signs == {-1, 0, 1}
 Next == \/ \E s \in Signs, c, t \in BOOLEAN : EvalMax(s, c, t) \/ EvalMin(s, c, t) \/ DoubleMin(s, c, t)
         \/ \E v \in 0..K, s \in Signs, c, t \in BOOLEAN : Probe(v, s, c, t) \/ FinalEval(v, s, c, t)
-        \/ Runaway \/ GiveUp \/ SetAtol \/ Terminate \/ Classify
+        \/ Runaway \/ GiveUp \/ SetAtol \/ Terminate \/ (\E cl \in BOOLEAN : Classify(cl))
 Spec == Init /\ [][Next]_vars
 
 (****************************** invariants *********************************)
